@@ -31,6 +31,8 @@ class Period(DashElement):
 
     def __init__(self, period, parent) -> None:
         super().__init__(period, parent)
+        # Manifest assigns a unique number to a Period that has no @id
+        self.id_present: bool = self.id is not None
         self.adaptation_sets = []
         self.event_streams = []
         if self.start is None:
@@ -142,6 +144,7 @@ class Period(DashElement):
 
     def validate_self(self) -> None:
         if self.mode == 'live':
-            self.attrs.check_not_none(
-                self.id, msg='id is mandatory for a live stream', clause='5.3.2.2')
+            self.attrs.check_true(
+                self.id_present, None, None,
+                msg='id is mandatory for a live stream', clause='5.3.2.2')
         self.progress.inc()
